@@ -880,6 +880,13 @@ class SetSectionLink:
         tm = secs[o["t"] % len(secs)]
         if tm is sm:
             return res(NOOP)
+        # no link cycles: Section.inherited_properties() follows links recursively without a guard
+        # (a cyclic link makes it recurse until the interpreter's limit; outside the properties)
+        x, hops = tm, 0
+        while x is not None and hops < 100:
+            if x is sm:
+                return res(NOOP)
+            x, hops = x.link, hops + 1
         sh = run.R(sm, o.get("via", 0))
         th = run.R(tm, o.get("tv", 0))
         run.expect_ok(run.call(lambda: setattr(sh, "link", th)), "set_section_link")
